@@ -149,4 +149,27 @@ example (sch : List (Fin 3)) (s : St) (i : Fin 3)
       sch (fun j : Fin 3 => (⟨Nat, addVia (20 + j.val) 7 (10 + j.val)⟩ : Thread)) s
       (fun j => addVia_fp (20 + j.val) 7 (10 + j.val) s) i hd).1
 
+/-! ## the remaining offender: a call counter in static storage (`tmpfile_s` / `tmpnam_s`, known finding
+`tmpfile-count`)
+
+`static int count; … if (++count > TMP_MAX_S) …` is a load and a store of ONE cell shared by all threads.
+The hypothesis of `reentrant_n` fails (both calls store to the counter cell), and so does the conclusion: -/
+
+/-- `++count` on the shared cell `c`, returning the new value -/
+def bump (c : Nat) : Prog Nat := do
+  let v ← load c
+  store c (v + 1)
+  pure (v + 1)
+
+/-- two concurrent calls, both load the counter before either stores: both return 1 and the counter ends
+at 1 — one call is lost to the `TMP_MAX_S` accounting; run one after the other they return 1 and 2 -/
+theorem shared_counter_witness :
+    ∃ sch : List Bool,
+      (runSched sch (bump 0) (bump 0) Props.C12.mem0).1 = .ret 1 ∧
+      (runSched sch (bump 0) (bump 0) Props.C12.mem0).2.1 = .ret 1 ∧
+      (runSched sch (bump 0) (bump 0) Props.C12.mem0).2.2.data 0 = 1 ∧
+      (runT (bump 0) (runT (bump 0) Props.C12.mem0).2).1 = 2 ∧
+      (runT (bump 0) (runT (bump 0) Props.C12.mem0).2).2.data 0 = 2 :=
+  ⟨[true, false, true, false, true, false], rfl, rfl, rfl, rfl, rfl⟩
+
 end SafeC.Props.C12N
